@@ -9,6 +9,8 @@ import (
 	"encoding/json"
 	"fmt"
 	"os"
+	"regexp"
+	"sort"
 	"strings"
 
 	"github.com/jdillenkofer/pithos/internal/http/server/authorization"
@@ -39,11 +41,30 @@ type kase struct {
 	Base  string `json:"base"`
 }
 
-var cidrLists = map[string][]string{
-	"none":       nil,
-	"valid":      {"10.0.0.0/8", "fd00::/8"},
-	"mixed":      {"not-a-cidr", "10.0.0.0/8", "300.1.1.1/33", "fd00::/8"},
-	"allinvalid": {"not-a-cidr", "10.0.0.0", "300.1.1.1/33"},
+// entry classes of Proxy.tla -> concrete list entries
+var cidrEntries = map[string]string{
+	"v4net":   "10.0.0.0/8",
+	"v6net":   "fd00::/8",
+	"garbage": "not-a-cidr",
+	"badmask": "300.1.1.1/33",
+	"barev4":  "10.0.0.0",
+	"barev6":  "2001:db8:0:1::10",
+}
+
+var quoted = regexp.MustCompile(`"([^"]*)"`)
+
+// cidrList parses a configuration name (ToString of a TLA+ set of entry classes, e.g. {"barev6", "v4net"})
+func cidrList(name string) []string {
+	var out []string
+	for _, m := range quoted.FindAllStringSubmatch(name, -1) {
+		e, ok := cidrEntries[m[1]]
+		if !ok {
+			panic("unknown cidr entry class " + m[1])
+		}
+		out = append(out, e)
+	}
+	sort.Strings(out)
+	return out
 }
 
 var peers = map[string]*string{
@@ -75,10 +96,7 @@ func main() {
 		key := fmt.Sprintf("%v/%s", k.Trust, k.Cidr)
 		a := auths[key]
 		if a == nil {
-			list, ok := cidrLists[k.Cidr]
-			if !ok {
-				panic("unknown cidr class " + k.Cidr)
-			}
+			list := cidrList(k.Cidr)
 			a, err = lua.NewLuaAuthorizerWithOptions(script, lua.Options{TrustForwardedHeaders: k.Trust, TrustedProxyCIDRs: list})
 			must(err)
 			auths[key] = a
